@@ -13,14 +13,15 @@ ID = "C18"
 LEVEL = "exploration"
 RULE = ("generated trees decorated with symbolic links: targets absolute or relative to the link's own directory (x, ../x, "
         "../../x/y), to files, to directories inside the root, outside the root, to ancestors (cycles), self-links, mutual "
-        "pairs, chains and dangling links, at depth 1..4; root given as `.`, relative or absolute; bfs/dfs. Everything "
+        "pairs, chains, dangling links, and links in different directories that carry the same relative text (resolving to "
+        "a directory here, a file or nothing there), at depth 1..4; root given as `.`, relative or absolute; bfs/dfs. Everything "
         "runs inside a chroot jail with the tree several levels deep, so a mis-resolved `..` stays bounded. Oracle with "
         "`symlinks`: terminates within the CPU limit; the multiset of real entries (realpath of the row's directory + "
         "name, resolved by an independent resolver) equals the closure model - every entry of every real directory "
         "reachable through sub-directories and directory links exactly once; status 0 and empty stderr when the tree has "
         "no dangling or self-referential link. Without the option the rows equal C01's model. Non-trivial = a link to a "
         "directory is followed and (a cycle, or a relative target from depth >= 2, or a directory reachable both "
-        "directly and through a link); distinct by canonical JSON of the case.")
+        "directly and through a link, or two links with one text of which only one leads to a directory); distinct by canonical JSON of the case.")
 ASSUMPTIONS = [
     "which of several paths to a directory is displayed, and exit status / messages with dangling or self-referential links, are not asserted",
     "depth windows are not combined with `symlinks` (nesting level behind a link is ambiguous)",
@@ -52,7 +53,7 @@ def strategy_(draw, tier):
     for i in range(nlinks):
         where = draw(st.sampled_from(dirs))
         kind = draw(st.sampled_from(["dir-rel", "dir-rel", "dir-abs", "ancestor", "outside-rel", "outside-abs", "file", "dangling",
-                                     "self", "mutual", "chain"]))
+                                     "self", "mutual", "chain", "same-text", "same-text", "name-rel"]))
         links.append({"at": list(where), "name": "L%d" % i, "kind": kind,
                       "pick": draw(st.sampled_from(range(16))), "up": draw(st.sampled_from([1, 1, 2, 3]))})
     return {"tree": spec, "outside": outside, "links": links, "root": draw(st.sampled_from(["dot", "rel", "abs"])),
@@ -103,6 +104,11 @@ def build(case, jroot, inner):
             text = relpath(at, files[pick % len(files)]) if files else "nofile"
         elif k == "dangling":
             text = "does/not/exist"
+        elif k == "same-text":
+            # the very text of the previous link, from another directory: may now be a directory, a file or nothing
+            text = made[-1][2] if made else "a"
+        elif k == "name-rel":
+            text = "/".join([".."] * (l["up"] - 1) + [NAMES[pick % len(NAMES)]])
         elif k == "self":
             text = l["name"]
         elif k == "mutual":
@@ -241,10 +247,18 @@ def check(case):
         cyc = any(t == root_real or root_real.startswith(t + "/") or p.startswith(t + "/") for p, t in followed)
         rel_deep = any(l["kind"] in ("dir-rel", "outside-rel", "ancestor", "chain") and len(l["at"]) >= 1 for l in case["links"])
         both = any(t.startswith(root_real) for p, t in followed)
-        out.nontrivial = bool(followed) and (cyc or rel_deep or both)
+        # links with one text that resolve to different kinds of thing (directory / other / nothing)
+        verdicts = collections.defaultdict(set)
+        for m in made:
+            if not m[2].startswith("/"):
+                r = jresolve(j, inner + "/t" + "".join("/" + c for c in m[0]) + "/" + m[1])
+                verdicts[m[2]].add("none" if r is None else "dir" if os.path.isdir(j + r) else "other")
+        same_text = any(len(v) > 1 and "dir" in v for v in verdicts.values())
+        out.nontrivial = bool(followed) and (cyc or rel_deep or both or same_text)
         out.classes = sorted({"links=%d" % len(made), "root=" + case["root"], "mode=" + (case["mode"] or "default")} |
                              {"kind=" + l["kind"] for l in case["links"]} | ({"followed-dir-link"} if followed else set()) |
-                             ({"cycle"} if cyc else set()) | ({"dir-reachable-twice"} if both else set()))
+                             ({"cycle"} if cyc else set()) | ({"dir-reachable-twice"} if both else set()) |
+                             ({"same-text-different-kind"} if same_text else set()))
         out.sample = {"query": q, "links": ["%s/%s -> %s" % ("/".join(m[0]), m[1], m[2]) for m in made], "rows": len(rows)}
     finally:
         runner.rmtree(j + "/w/c%d" % _jail["n"])
